@@ -269,12 +269,80 @@ func scenCerts(n int, mainnet bool, epoch uint64, kind int) Case {
 	}
 }
 
+func thr(base int) int {
+	if base < 7 {
+		return 1000
+	}
+	return base*2/3 + 1
+}
+
+// stateful certificate sequences on one node (warm verification cache): n mature
+// accepted nodes and a node pledged more than 12h-90s before ts, so the
+// non-final threshold counts the pledging node and the final one does not.  The
+// same certificate goes through the leader's non-final check or a lower chosen
+// threshold first and through verifyFinalization afterwards, and in the
+// reverse (control) order.
+func scenCertSeq(n int, mainnet bool, epoch uint64) Case {
+	cs := scenPledging(n, mainnet, epoch)
+	x := cs.Recs[len(cs.Recs)-1].K
+	p := cs.Recs[len(cs.Recs)-1].Ts
+	ts := p + maturity - 3*refWindow + 5*Second // hour 11:58, outside the operation window
+	tf, tn := thr(n), thr(n+1)
+	cs.Kind, cs.Name, cs.Qs = "certs", "certs-sequence", nil
+	q := Query{Ts: ts, Chain: 0, Est: true, Round: 1}
+	add := func(q Query, pos []int, steps ...Step) {
+		if len(pos) == 0 {
+			return
+		}
+		cs.Certs = append(cs.Certs, CertQ{Query: q, SignPrefix: len(cs.Recs), SignTs: q.Ts, Pos: pos, Steps: steps})
+	}
+	L, F := Step{Kind: "leader"}, Step{Kind: "final"}
+	D := func(t int) Step { return Step{Kind: "direct", Thr: t} }
+	if tf > n {
+		// final threshold unreachable (below the minimum, or sentinel)
+		k := tn
+		if k > n {
+			k = n - 1
+		}
+		add(q, firstK(k), L, F)
+		add(q, firstK(k), F, L, F)
+		add(q, firstK(n), L, F, F)
+		add(q, firstK(n), D(1), F)
+		add(q, lastK(n, k), D(k), F, D(1), F)
+	} else {
+		add(q, firstK(tf-1), D(tf-1), F)
+		add(q, firstK(tf-1), F, D(tf-1), F)
+		add(q, lastK(n, tf-1), D(1), L, F)
+		add(q, firstK(tf), L, F)
+		add(q, firstK(tf), F, L, F)
+		if tn <= n {
+			add(q, firstK(tn), L, F)
+		}
+		add(q, firstK(n), D(n), F)
+	}
+	// round 0 of the pledging chain at its accept time: n+1 keys
+	at := epoch + 100*Day + 13*Hour + 5*Second
+	q0 := Query{Ts: at, Chain: x, Est: false, Round: 0}
+	if tf <= n {
+		add(q0, firstK(tf-1), D(tf-1), F)
+		add(q0, firstK(tf-1), L, F)
+	} else {
+		add(q0, firstK(n+1), L, F)
+		add(q0, firstK(n+1), D(2), F)
+	}
+	return cs
+}
+
 // corpus: the boundary cases named in the design, including the recorded finding
 func corpus() []Case {
 	var out []Case
 	// F4 on the real code: 7 (8) mature nodes, pledging chain, round 0
 	out = append(out, scenPledging(7, false, EpochMain), scenPledging(8, false, EpochMain), scenPledging(9, false, EpochMain))
 	out = append(out, scenCerts(7, false, EpochMain, 1), scenCerts(8, true, EpochMain, 1))
+	// warm verification cache at the minimum-membership boundary and around T / T-1
+	for _, n := range []int{6, 5, 7, 8, 9} {
+		out = append(out, scenCertSeq(n, n%2 == 1, EpochMain))
+	}
 	// below the minimum
 	for n := 1; n <= 6; n++ {
 		out = append(out, scenGenesis(n, false, EpochMain), scenPledging(n, false, EpochMain), scenMaturity(n, true, EpochMain))
@@ -332,6 +400,9 @@ func sweep(c *vh.Ctx) []Case {
 		if c.Tier != "quick" || n%6 == 1 || n == 50 {
 			for k := 0; k < 3; k++ {
 				out = append(out, scenCerts(n, n%2 == 0, EpochMain, k))
+			}
+			if n > 9 {
+				out = append(out, scenCertSeq(n, n%2 == 0, EpochMain))
 			}
 		}
 	}
